@@ -407,6 +407,81 @@ func (e *wireExec) construct(i int, ts TokSpec) {
 	}
 	e.toks[i] = w
 	o.Logf("token %d %s alg=%s cbor=%d json=%d", i, ts.Kind, alg, len(w.cbor), len(w.json))
+	if i == 0 {
+		e.argsReuse(ent)
+	}
+}
+
+// argsReuse: ONE *args.Args serves two constructors (options built once, a token per request),
+// each adding its own argument, and the caller keeps using its collection afterwards. Each token
+// holds what it was given, whatever happens to the others and to the caller's collection.
+func (e *wireExec) argsReuse(ent *keyEntry) {
+	o := e.o
+	for _, n := range []int{0, 1, 3, 5, 6, 7, 9} {
+		common := args.New()
+		want := map[string]int64{}
+		for k := 0; k < n; k++ {
+			key := fmt.Sprintf("c%d", k)
+			if err := common.Add(key, int64(k)); err != nil {
+				return
+			}
+			want[key] = int64(k)
+		}
+		var ta, tb *invocation.Token
+		var ea, eb error
+		if guard(o, "invocation.New(shared arguments)", func() {
+			ta, ea = invocation.New(ent.id, ent.id, command.MustParse("/a"), nil, invocation.WithArguments(common), invocation.WithArgument("own-a", "A"))
+			tb, eb = invocation.New(ent.id, ent.id, command.MustParse("/a"), nil, invocation.WithArguments(common), invocation.WithArgument("own-b", "B"))
+		}) || ea != nil || eb != nil || ta == nil || tb == nil {
+			continue
+		}
+		laterErr := common.Add("own-a", "caller")
+		o.Eval("C10")
+		o.Sig("C10", "args-reuse", n)
+		holds := func(tk *invocation.Token, own, val, foreign string) string {
+			cnt := 0
+			for k, v := range tk.Arguments().Iter() {
+				cnt++
+				if k == own {
+					if sv, err := v.AsString(); err != nil || sv != val {
+						return fmt.Sprintf("its own argument %q reads %q", own, sv)
+					}
+					continue
+				}
+				if k == foreign {
+					return fmt.Sprintf("it holds %q, which was given to the other token", foreign)
+				}
+				iv, err := v.AsInt()
+				if w, ok := want[k]; !ok || err != nil || iv != w {
+					return fmt.Sprintf("argument %q reads %v", k, iv)
+				}
+			}
+			if cnt != n+1 {
+				return fmt.Sprintf("it holds %d arguments, %d were given", cnt, n+1)
+			}
+			if _, err := tk.Arguments().GetNode(foreign); err == nil {
+				return fmt.Sprintf("GetNode(%q) finds the other token's argument", foreign)
+			}
+			return ""
+		}
+		attrs := map[string]string{"where": "WithArguments(shared)", "n": fmt.Sprint(n)}
+		if why := holds(ta, "own-a", "A", "own-b"); why != "" {
+			o.Violate("C10", "argument-altered", "two tokens built from one shared Args: the first token: "+why, attrs)
+			return
+		}
+		if why := holds(tb, "own-b", "B", "own-a"); why != "" {
+			o.Violate("C10", "argument-altered", "two tokens built from one shared Args: the second token: "+why, attrs)
+			return
+		}
+		cl := 0
+		for range common.Iter() {
+			cl++
+		}
+		if laterErr != nil || cl != n+1 {
+			o.Violate("C10", "argument-altered", fmt.Sprintf("the caller's own Args after it served two constructors: Add of a fresh key: %v, %d entries (%d expected)", laterErr, cl, n+1), attrs)
+			return
+		}
+	}
 }
 
 // ---- decoders
